@@ -132,8 +132,9 @@ func TestC12(t *testing.T) {
 		for i := 0; i < 24; i++ {
 			afterClose(t, r, i)
 		}
+		updaterStorm(t, r)
 	}
-	r.Require("reads_after_close_with_cache_fault", "rollback_polls", "handles_from_racing_lookups", "reads_validated", "reads_after_close", "polls_completed", "lookups_during_reads", "expiry_sweeps", "parked_probes_completed", "reader_serial_transitions", "read_after_poll_checks", "handles_obtained_during_poll")
+	r.Require("handle_reads_during_updater_storm", "reads_after_close_with_cache_fault", "rollback_polls", "handles_from_racing_lookups", "reads_validated", "reads_after_close", "polls_completed", "lookups_during_reads", "expiry_sweeps", "parked_probes_completed", "reader_serial_transitions", "read_after_poll_checks", "handles_obtained_during_poll")
 	r.Rule("stress repetitions: 16 reader goroutines over handles of 3 declared + up to 4 looked-up secrets, concurrent with a background poller on a fast ticker, explicit Refresh callers, a service that keeps installing new values, lookups of fresh names, expiry sweeps driven by an injected clock, then Close with readers continuing; every read validated. Parked-request probes: while a poll/lookup/initial request is parked in the service, every handle is called 100 times. Distinct = (reader serial transition kind x concurrent event) and probe kinds")
 }
 
@@ -794,5 +795,129 @@ func afterClose(t *testing.T, r *evid.Run, idx int) {
 				r.Inconclusive(fmt.Sprintf("after-close case %d: not finished, but nobody is on the store mutex", idx))
 			}
 		}
+	}
+}
+
+// updaterStorm: many updaters on few secrets are polled by getter goroutines while new versions keep arriving
+// (so notifications are pending, consumed and re-sent all the time). A handle reader beside them must never
+// be kept waiting: whatever the store does to tell watchers about a new value, it does not do it at the
+// expense of handle calls.
+func updaterStorm(t *testing.T, r *evid.Run) {
+	w := &world{svc: fakesvc.New(), rng: rand.New(rand.NewPCG(4242, 5)), ver: map[string]uint32{}, served: map[string]map[uint64]string{}}
+	names := []string{"us/a", "us/b"}
+	for _, n := range names {
+		w.bump(n)
+	}
+	st, err := setec.NewStore(context.Background(), setec.StoreConfig{Client: w.svc, Secrets: names, PollInterval: -1, Logf: func(string, ...any) {}})
+	if err != nil {
+		t.Fatalf("NewStore: %v", err)
+	}
+	defer st.Close()
+	var ups []*setec.Updater[int]
+	for i := 0; i < 64; i++ {
+		u, err := setec.NewUpdater(context.Background(), st, names[i%2], func(b []byte) (int, error) { return len(b), nil })
+		if err != nil {
+			t.Fatal(err)
+		}
+		ups = append(ups, u)
+	}
+	stop := make(chan struct{})
+	var wg sync.WaitGroup
+	for g := 0; g < 8; g++ {
+		wg.Add(1)
+		go func(g int) {
+			defer wg.Done()
+			for i := g; ; i += 3 {
+				select {
+				case <-stop:
+					return
+				default:
+				}
+				ups[i%len(ups)].Get()
+			}
+		}(g)
+	}
+	wg.Add(1)
+	go func() { // the service moves on, and the store follows
+		defer wg.Done()
+		for i := 0; ; i++ {
+			select {
+			case <-stop:
+				return
+			default:
+			}
+			w.bump(names[i%2])
+			st.Refresh(context.Background())
+		}
+	}()
+	handles := []setec.Secret{st.Secret(names[0]), st.Secret(names[1])}
+	progress := make(chan struct{}, 1)
+	readerDone := make(chan struct{})
+	go func() {
+		defer close(readerDone)
+		for {
+			select {
+			case <-stop:
+				return
+			default:
+			}
+			for i, h := range handles {
+				if name, _, ok := parse(h.Get()); !ok || name != names[i] {
+					r.Violation("torn-value", -1, "updater storm: a handle returned an invalid value", nil)
+					return
+				}
+				r.Count("handle_reads_during_updater_storm", 1)
+			}
+			select {
+			case progress <- struct{}{}:
+			default:
+			}
+		}
+	}()
+	r.Eval(1)
+	r.Distinct("updater storm")
+	witness := func(what string) {
+		n := 0
+		var dump string
+		for s := 0; s < 3; s++ {
+			buf := make([]byte, 1<<20)
+			buf = buf[:runtime.Stack(buf, true)]
+			dump = string(buf)
+			for _, g := range strings.Split(dump, "\n\n") {
+				if strings.Contains(g, "c12.updaterStorm.func") && strings.Contains(g, "sync.(*Mutex).Lock") && strings.Contains(g, "client/setec.(*Store)") {
+					n++
+					break
+				}
+			}
+			time.Sleep(300 * time.Millisecond)
+		}
+		if n == 3 {
+			if len(dump) > 8000 {
+				dump = dump[:8000]
+			}
+			r.Violation("handle-blocks-during-updates", -1, "updater storm: "+what+": a handle call is blocked on the store mutex in 3 consecutive samples while updaters are being notified", map[string]any{"stacks": dump})
+		} else {
+			r.Inconclusive("updater storm: " + what + ", but no handle call is on the store mutex")
+		}
+	}
+	deadline := time.After(time.Duration(r.N(2500, 20000)) * time.Millisecond)
+loop:
+	for {
+		select {
+		case <-deadline:
+			break loop
+		case <-progress:
+		case <-time.After(3 * time.Second):
+			witness("the handle reader has not completed a round for three seconds")
+			return // the goroutines cannot be collected; the process ends with the test
+		}
+	}
+	close(stop)
+	all := make(chan struct{})
+	go func() { wg.Wait(); <-readerDone; close(all) }()
+	select {
+	case <-all:
+	case <-time.After(5 * time.Second):
+		witness("readers, getters and the refresher do not come to an end")
 	}
 }
